@@ -147,6 +147,18 @@ def main():
     os.environ.setdefault("QUEASARS_VERIF", "1")
     t0 = time.time()
     budget = float(os.environ.get("VERIF_BUDGET_S", "1500" if args.tier == "quick" else "5400"))
+    # watchdog: a hang of the implementation under test (or of the harness) must end the check with exit 2 (no verdict), never block it
+    hard = float(os.environ.get("VERIF_HARD_LIMIT_S", str(2 * budget + 600)))
+
+    def _watchdog():
+        time.sleep(hard)
+        sys.stdout.write(f"TIMEOUT: check {prop} exceeded the hard limit of {hard:.0f} s (infrastructure, not a verdict)\n")
+        sys.stdout.flush()
+        os._exit(2)
+
+    import threading
+
+    threading.Thread(target=_watchdog, daemon=True).start()
 
     mod = importlib.import_module(f"corr_{prop}")
     META = mod.META
